@@ -1067,10 +1067,17 @@ impl Gen {
                 self.need("f0");
                 self.need("f2");
                 self.need("fr");
-                let v = self.rng.upto(9);
+                let v = self.rng.upto(16);
                 let vn = self.ensure_vec();
                 (
                     match v {
+                        9 => call("vector-set!", vec![sym(&vn), int(0)]),
+                        10 => call("make-vector", vec![int(3)]),
+                        11 => call("apply", vec![]),
+                        12 => call("eq?", vec![int(1)]),
+                        13 => call("vector-length", vec![]),
+                        14 => call("cdr", vec![quote(list(vec![int(1)])), int(2)]),
+                        15 => call("fr", vec![]),
                         0 => call("f2", vec![int(1)]),
                         1 => call("f2", vec![int(1), int(2), int(3)]),
                         2 => call("fr", vec![int(1)]),
@@ -1098,7 +1105,8 @@ impl Gen {
             }
             4 => {
                 let vn = self.ensure_vec();
-                let v = self.rng.upto(8);
+                self.need("f0");
+                let v = self.rng.upto(22);
                 (
                     match v {
                         0 => call("+", vec![int(1), quote(sym("a"))]),
@@ -1108,7 +1116,21 @@ impl Gen {
                         4 => call("vector-ref", vec![sym(&vn), quote(sym("x"))]),
                         5 => call("-", vec![Sx::Str("s".into())]),
                         6 => call("<", vec![int(1), Sx::Bool(true)]),
-                        _ => call("cdr", vec![quote(list(vec![]))]),
+                        7 => call("cdr", vec![quote(list(vec![]))]),
+                        8 => call("vector-set!", vec![sym(&vn), quote(sym("x")), int(1)]),
+                        9 => call("vector-set!", vec![quote(list(vec![int(1)])), int(0), int(1)]),
+                        10 => call("make-vector", vec![quote(sym("a")), int(0)]),
+                        11 => call("apply", vec![sym("f0"), int(5)]),
+                        12 => call("*", vec![int(2), Sx::Str("s".into())]),
+                        13 => call(">", vec![quote(sym("a")), int(1)]),
+                        14 => call("abs", vec![quote(sym("x"))]),
+                        15 => call("vector-ref", vec![quote(list(vec![int(1), int(2)])), int(0)]),
+                        16 => call("car", vec![Sx::Str("s".into())]),
+                        17 => call("=", vec![int(1), quote(sym("a"))]),
+                        18 => call(">=", vec![Sx::Bool(true), int(1)]),
+                        19 => call("<=", vec![int(1), Sx::Str("2".into())]),
+                        20 => call("max", vec![int(1), quote(sym("a"))]),
+                        _ => call("floor", vec![Sx::Char('x')]),
                     },
                     "wrong-type",
                 )
@@ -1116,13 +1138,16 @@ impl Gen {
             5 => {
                 let vn = self.ensure_vec();
                 let len = self.vec_id(&vn).map(|id| self.m.vectors[id].items.len()).unwrap_or(3) as i64;
-                let v = self.rng.upto(4);
+                let v = self.rng.upto(7);
                 (
                     match v {
                         0 => call("vector-ref", vec![sym(&vn), int(len)]),
                         1 => call("vector-ref", vec![sym(&vn), int(-1)]),
                         2 => call("vector-set!", vec![sym(&vn), int(len + 2), int(0)]),
-                        _ => call("vector-set!", vec![sym(&vn), int(-1), int(0)]),
+                        3 => call("vector-set!", vec![sym(&vn), int(-1), int(0)]),
+                        4 => call("vector-set!", vec![sym(&vn), int(len), int(0)]),
+                        5 => call("vector-ref", vec![sym(&vn), int(-len)]),
+                        _ => call("vector-ref", vec![call("vector", vec![]), int(0)]),
                     },
                     "index",
                 )
